@@ -2,7 +2,7 @@
 Theorems: lean/RuschmProofs/C02.lean (apply_procedure activations are balanced, the trampoline and
 apply do not nest, tail position passes through if arms and through the expansions of the derived
 forms regenerated from grammar.sld, the counting loop runs at a depth independent of N).
-Tie: loops whose tail call sits in every composition (depth 2; thorough 3) of the 18 tail contexts,
+Tie: loops whose tail call sits in every composition (depth 2; thorough 3) of the 21 tail contexts,
 in 5 loop shapes, at two iteration counts, on the real interpreter (a host procedure `tick` called
 once per iteration records the address of a local = real stack depth, and the live heap bytes of a
 counting allocator) and on the model (maximum nesting of apply_procedure activations). Oracle on the
@@ -34,6 +34,11 @@ CONTEXTS = {
     # bodies that BEGIN with internal definitions: their last expression is still in tail position
     "thunk-body-after-define": "((lambda () (define j 1) %s))",
     "let-body-after-define": "(let ((j 1)) (define jj (+ j 1)) jj %s)",
+    # a tail let / let* that binds a PROCEDURE made in this iteration (a local helper; one over the loop variable): the
+    # helper lives in the let's own frame and dies with it - nothing may keep one frame per iteration alive
+    "let-binds-procedure": "(let ((hlp (lambda (t) (+ t 1)))) %s)",
+    "let*-binds-procedure": "(let* ((j 1) (hlp (lambda (t) (+ t j)))) %s)",
+    "let-binds-closure-over-n": "(let ((hlp (lambda () n)) (j 2)) %s)",
 }
 
 SUM_ALL = "(define (sum-all l s) (if (null? l) s (sum-all (cdr l) (+ s ((car l))))))"      # a loop itself: no deep recursion
@@ -181,7 +186,7 @@ def run(rep, tier, rng):
 def main(tier, seed):
     rep = C.Report(PROP, tier, seed)
     rng = random.Random(seed)
-    rep.cov["rule"] = ("loops whose tail call sits in a composition of the 18 tail contexts (the 16 of the derived forms and two bodies that begin with internal definitions) (all single contexts, pairs sampled "
+    rep.cov["rule"] = ("loops whose tail call sits in a composition of the 21 tail contexts (the 16 of the derived forms, two bodies that begin with internal definitions, three lets that bind a procedure made in the iteration) (all single contexts, pairs sampled "
                        "in quick / all pairs and sampled triples in thorough) x 13 loop shapes (loops that hand a closure over the current iteration's variable to the next iteration - self and mutual -, two closures of one lambda handing over to each other, self, self with internal value definitions, self with an internal procedure definition, mutual, through a procedure "
                        "parameter, variadic, apply in its 2-argument, leading-argument, rest-forwarding and empty-tail forms) x 2 iteration counts; distinct = (shape, contexts, count)")
     rep.assumptions = ["real stack depth is the address of a local of the host procedure tick; live heap is a counting global allocator; "
